@@ -43,6 +43,7 @@ type PhaseOpts struct {
 // PhaseResult is what a phase observed.
 type PhaseResult struct {
 	Decisions     []int
+	Trace         []dsched.StepInfo
 	WriteAttempts int
 	WriteKinds    []casstore.OpKind // kind of each write attempt, in order (index k-1 = k-th attempt)
 	DSOps         int
@@ -177,6 +178,7 @@ func (w *World) RunPhase(opts PhaseOpts, clients []*LClient, scripts []Script) *
 	err := sched.Run(opts.Watchdog)
 	res.Stuck = err != nil
 	res.Decisions = sched.Decisions()
+	res.Trace = sched.Trace()
 	res.Overlaps = sched.Overlaps.Load()
 	res.Divergences = sched.Divergences
 	res.Panics = sched.Panics
